@@ -132,3 +132,91 @@ Proof.
     split; [ reflexivity | split; [ reflexivity | ] ].
     unfold coherent. vm_compute. intros H. discriminate H.
 Qed.
+
+(* ---- the array model: a resume that makes the value stack grow ---------------------------------------- *)
+
+Lemma write_at_live : forall (at_ : nat) (src arr : list Z),
+  at_ + length src <= length arr ->
+  firstn (at_ + length src) (write_at at_ src arr) = firstn at_ arr ++ src.
+Proof.
+  intros at_ src arr Hroom. unfold write_at.
+  assert (Hl : length (firstn at_ arr) = at_) by (rewrite firstn_length; lia).
+  rewrite (firstn_all2 (n := length arr - at_) src) by lia.
+  rewrite app_assoc.
+  replace (at_ + length src) with (length (firstn at_ arr ++ src)) by (rewrite app_length, Hl; reflexivity).
+  apply firstn_app_exact.
+Qed.
+
+Lemma write_at_length : forall (at_ : nat) (src arr : list Z),
+  at_ + length src <= length arr -> length (write_at at_ src arr) = length arr.
+Proof.
+  intros at_ src arr Hroom. unfold write_at.
+  rewrite !app_length, !firstn_length, skipn_length. lia.
+Qed.
+
+Lemma grow_arr_prefix : forall (arr : list Z) n, n <= length arr -> firstn n (grow_arr arr) = firstn n arr.
+Proof.
+  intros arr n Hn. unfold grow_arr. rewrite firstn_app.
+  replace (n - length arr) with 0 by lia. cbn [firstn]. apply app_nil_r.
+Qed.
+
+Lemma grow_arr_length : forall arr : list Z, length (grow_arr arr) = 2 * length arr.
+Proof. intros arr. unfold grow_arr. rewrite app_length, repeat_length. lia. Qed.
+
+(* resume AFTER growth: whatever the growth policy decides (never, the 70 % rule, always), when the frame fits
+   into the array the live stack afterwards is the old live stack followed by the saved frame: exactly the
+   list-level [resume]; nothing below is touched, the capacity never shrinks. *)
+Theorem resume_after_grow : forall policy g a,
+  a_sp a + length (g_stack g) <= length (a_arr a) ->
+  let a' := resume_arr policy g a in
+  live a' = live a ++ g_stack g /\
+  a_sp a' = a_sp a + length (g_stack g) /\
+  skipn (a_sp a) (live a') = g_stack g /\
+  firstn (a_sp a) (live a') = live a /\
+  length (a_arr a') = (if policy (a_sp a + length (g_stack g)) (length (a_arr a)) then 2 * length (a_arr a) else length (a_arr a)).
+Proof.
+  intros policy g a Hroom a'.
+  assert (Hlive : live a' = live a ++ g_stack g).
+  { unfold a', resume_arr, live. cbn [a_arr a_sp].
+    destruct (policy (a_sp a + length (g_stack g)) (length (a_arr a))).
+    - rewrite write_at_live by (rewrite grow_arr_length; lia).
+      rewrite grow_arr_prefix by lia. reflexivity.
+    - rewrite write_at_live by lia. reflexivity. }
+  assert (Hlen : length (live a) = a_sp a) by (unfold live; rewrite firstn_length; lia).
+  split; [ exact Hlive | ]. split; [ reflexivity | ].
+  split; [ rewrite Hlive, <- Hlen; apply skipn_app_exact | ].
+  split; [ rewrite Hlive, <- Hlen; apply firstn_app_exact | ].
+  unfold a', resume_arr. cbn [a_arr].
+  destruct (policy (a_sp a + length (g_stack g)) (length (a_arr a))).
+  - rewrite write_at_length by (rewrite grow_arr_length; lia). apply grow_arr_length.
+  - apply write_at_length. lia.
+Qed.
+
+(* the array-level resume refines the list-level one the other theorems are about *)
+Corollary resume_arr_refines : forall policy g a t,
+  a_sp a + length (g_stack g) <= length (a_arr a) ->
+  stack t = live a -> stack (resume g t) = live (resume_arr policy g a).
+Proof.
+  intros policy g a t Hroom Hst.
+  destruct (resume_after_grow policy g a Hroom) as [Hlive _].
+  cbn [resume stack]. rewrite Hst. symmetry. exact Hlive.
+Qed.
+
+(* destination computed BEFORE the growth check: under the 70 % rule the resumed body runs on stale slots *)
+Theorem resume_before_grow_witness :
+  a_sp wit_arr + length (g_stack wit_gen) <= length (a_arr wit_arr) /\
+  needs_grow (a_sp wit_arr + length (g_stack wit_gen)) (length (a_arr wit_arr)) = true /\
+  live (resume_arr needs_grow wit_gen wit_arr) = [1; 2; 3; 4; 5; 6; 7; 100; 5]%Z /\
+  live (resume_arr_stale needs_grow wit_gen wit_arr) = [1; 2; 3; 4; 5; 6; 7; 0; 0]%Z /\
+  live (resume_arr_stale needs_grow wit_gen wit_arr) <> live wit_arr ++ g_stack wit_gen.
+Proof.
+  split; [ vm_compute; repeat constructor | ].
+  split; [ reflexivity | ]. split; [ reflexivity | ]. split; [ reflexivity | ].
+  vm_compute. intros H. discriminate H.
+Qed.
+
+(* ... and it is only the growing resume that goes wrong: without growth both agree *)
+Theorem resume_stale_same_without_growth : forall policy g a,
+  policy (a_sp a + length (g_stack g)) (length (a_arr a)) = false ->
+  resume_arr_stale policy g a = resume_arr policy g a.
+Proof. intros policy g a H. unfold resume_arr_stale, resume_arr. rewrite H. reflexivity. Qed.
